@@ -25,6 +25,7 @@ import (
 
 	"github.com/BondMachineHQ/BondMachine/pkg/basm"
 	"github.com/BondMachineHQ/BondMachine/pkg/bminfo"
+	"github.com/BondMachineHQ/BondMachine/pkg/bmnumbers"
 	"github.com/BondMachineHQ/BondMachine/pkg/bmreqs"
 	"github.com/BondMachineHQ/BondMachine/pkg/bondmachine"
 	"github.com/BondMachineHQ/BondMachine/pkg/procbuilder"
@@ -324,6 +325,7 @@ type batch struct {
 	N    int
 	K    int // concurrent callers (par)
 	M    machSpec
+	DT   string // seqdyn / pardyn: the (dynamic) number type SinglePipelineSimulate shows o0 in
 }
 
 type holder struct{ roots []*bmreqs.ReqRoot }
@@ -332,6 +334,10 @@ var held holder
 
 func simOnce(bm *bondmachine.Bondmachine, m machSpec, in int, dataType string) bool {
 	res, err := bm.SinglePipelineSimulate(dataType, []string{fmt.Sprintf("%d", in)}, nil)
+	if dataType != "unsigned" && dataType != "nosuchtype" {
+		// two outputs: o0 (unconnected) shown in the dynamic type, o1 = the chain's result, unsigned
+		return err == nil && len(res) == 2 && res[1] == fmt.Sprintf("%d", m.expect(in))
+	}
 	if dataType != "unsigned" {
 		return err != nil // the error path after the launch
 	}
@@ -347,13 +353,20 @@ func runBatch(id int, b batch, rng *common.Rng) (string, bool) {
 		ticks += i + 3
 	}
 	switch b.Mode {
-	case "seq", "seqerr":
+	case "seq", "seqerr", "seqdyn":
 		fn = "SinglePipelineSimulate"
 		bm, err := b.M.build()
 		if err != nil {
 			return "", false
 		}
 		dt := "unsigned"
+		if b.Mode == "seqdyn" {
+			dt = b.DT
+			b.M.Two = true
+			if bm, err = b.M.build(); err != nil {
+				return "", false
+			}
+		}
 		if b.Mode == "seqerr" {
 			// o0 is shown with a type that does not exist: SinglePipelineSimulate fails *after* the
 			// launch, on the last tick
@@ -366,11 +379,19 @@ func runBatch(id int, b batch, rng *common.Rng) (string, bool) {
 		for i := 0; i < b.N; i++ {
 			ok = simOnce(bm, b.M, rng.Intn(200), dt) && ok
 		}
-	case "par":
+	case "par", "pardyn":
 		fn = "SinglePipelineSimulate"
 		bm, err := b.M.build()
 		if err != nil {
 			return "", false
+		}
+		pdt := "unsigned"
+		if b.Mode == "pardyn" {
+			pdt = b.DT
+			b.M.Two = true
+			if bm, err = b.M.build(); err != nil {
+				return "", false
+			}
 		}
 		var wg sync.WaitGroup
 		var mu sync.Mutex
@@ -383,7 +404,7 @@ func runBatch(id int, b batch, rng *common.Rng) (string, bool) {
 			go func(ins []int) {
 				defer wg.Done()
 				for _, in := range ins {
-					r := simOnce(bm, b.M, in, "unsigned")
+					r := simOnce(bm, b.M, in, pdt)
 					mu.Lock()
 					ok = ok && r
 					mu.Unlock()
@@ -471,12 +492,35 @@ func runBatch(id int, b batch, rng *common.Rng) (string, bool) {
 	default:
 		return "", false
 	}
-	return fmt.Sprintf("B id=%d mode=%s n=%d k=%d P=%d ticks=%d fn=%s shut=%s mach=%s",
-		id, b.Mode, b.N, b.K, b.M.total(), ticks, fn, shut, b.M.String()), ok
+	dtf := b.DT
+	if dtf == "" {
+		dtf = "-"
+	}
+	return fmt.Sprintf("B id=%d mode=%s n=%d k=%d P=%d ticks=%d fn=%s shut=%s dt=%s mach=%s",
+		id, b.Mode, b.N, b.K, b.M.total(), ticks, fn, shut, dtf, b.M.String()), ok
+}
+
+// regSizes: the process-wide registries a finished simulation must leave as it found them
+func regSizes() [3]int {
+	return [3]int{len(bmnumbers.AllTypes), len(bmnumbers.AllMatchers), len(procbuilder.Allopcodes)}
+}
+
+func liveHeap() uint64 {
+	runtime.GC()
+	var ms runtime.MemStats
+	runtime.ReadMemStats(&ms)
+	return ms.HeapAlloc
 }
 
 func measure(id int, b batch, rng *common.Rng) {
+	if b.DT != "" {
+		// the number type is registered before the batch (as a tool does before it starts simulating):
+		// the simulations only look it up
+		bmnumbers.EventuallyCreateType(b.DT, nil)
+	}
 	settle()
+	regBefore := regSizes()
+	heapBefore := liveHeap()
 	before := profile()
 	line := ""
 	ok := false
@@ -486,6 +530,8 @@ func measure(id int, b batch, rng *common.Rng) {
 	})
 	settle()
 	after := profile()
+	regAfter := regSizes()
+	heapAfter := liveHeap()
 	if line == "" {
 		out.Line("E id=%d mode=%s %s", id, b.Mode, strings.ReplaceAll(res, "\n", " "))
 		out.Flush()
@@ -520,7 +566,8 @@ func measure(id int, b batch, rng *common.Rng) {
 	if ok && res == "" {
 		okS = 1
 	}
-	out.Line("M id=%d%s other=%d total=%d ok=%d sites=%s", id, sb.String(), other, total, okS, strings.Join(others, ","))
+	out.Line("M id=%d%s other=%d total=%d ok=%d types=%d matchers=%d opcodes=%d heap=%d sites=%s", id, sb.String(), other, total, okS,
+		regAfter[0]-regBefore[0], regAfter[1]-regBefore[1], regAfter[2]-regBefore[2], int64(heapAfter)-int64(heapBefore), strings.Join(others, ","))
 	out.Flush()
 }
 
@@ -574,6 +621,11 @@ func runAll(tier string) {
 		next(batch{Mode: "par", N: 25, K: 2 + rng.Intn(4), M: genFailMach(rng, 3)})
 		next(batch{Mode: "fit", N: 10, M: genFailMach(rng, 2)})
 		next(batch{Mode: "raw", N: 5, M: genFailMach(rng, 2)})
+		// simulations showing a value in a dynamic number type: the process-wide registries must not grow
+		dts := []string{"fps32f16", "fxps16f8", "fps16f4", "lqs16t1"} // (flpe<e>f<f> cannot export without FloPoCo)
+		next(batch{Mode: "seqdyn", N: 10, M: genMach(rng, 3), DT: dts[rng.Intn(len(dts))]})
+		next(batch{Mode: "seqdyn", N: 100, M: genMach(rng, 2), DT: dts[rng.Intn(len(dts))]})
+		next(batch{Mode: "pardyn", N: 20, K: 2 + rng.Intn(4), M: genMach(rng, 3), DT: dts[rng.Intn(2)]})
 		// machines with a spare processor that cannot be initialised (a call may fail, never leak)
 		next(batch{Mode: "seq", N: 10, M: genDeadMach(rng, 3)})
 		next(batch{Mode: "par", N: 10, K: 2 + rng.Intn(4), M: genDeadMach(rng, 3)})
@@ -591,8 +643,13 @@ func runAll(tier string) {
 }
 
 func runReplay(spec string) {
-	// spec: mode,n,k,machine
+	// spec: mode,n,k,machine[,number type]
 	f := strings.Split(spec, ",")
+	dt := ""
+	if len(f) == 5 {
+		dt = f[4]
+		f = f[:4]
+	}
 	if len(f) != 4 {
 		fmt.Fprintln(os.Stderr, "replay spec: mode,n,k,machine")
 		os.Exit(2)
@@ -612,5 +669,6 @@ func runReplay(spec string) {
 		}
 		b.M = m
 	}
+	b.DT = dt
 	measure(1, b, common.NewRng(common.Seed()))
 }
